@@ -173,10 +173,12 @@ prop("C14", "fault_enumeration",
 
 prop("C15", "exploration",
      quick=[("hostile", "san", 700), ("hostile", "fast", 1200), ("tracks_twice", "fast", 500), ("mixed_twice", "fast", 300),
-            ("hostile_twice", "fast", 300), ("tableh", "san", 250), ("foreign", "san", 250)],
+            ("hostile_twice", "fast", 300), ("tableh", "san", 250), ("foreign", "san", 250),
+            ("cross_disk_faulty", "fast", 400), ("mixed_disk_faulty", "san", 150)],
      thorough=[("hostile", "san", 30000), ("hostile", "fast", 60000), ("mixed", "san", 5000), ("tracks", "san", 5000),
                ("tracks_twice", "fast", 30000), ("mixed_twice", "fast", 20000), ("hostile_twice", "fast", 20000), ("table_twice", "fast", 10000),
-               ("tableh", "san", 8000), ("table", "san", 8000), ("foreign", "san", 8000)],
+               ("tableh", "san", 8000), ("table", "san", 8000), ("foreign", "san", 8000),
+               ("cross_disk_faulty", "fast", 20000), ("mixed_disk_faulty", "san", 3000)],
      relevant=["hostile_call_threw", "hostile_call_completed", "executed_twice", "table_row_checked", "c04_preservation_checked"],
      rule="hostile-caller histories on all 18 schemas under ASan+UBSan+_GLIBCXX_ASSERTIONS: cue/loop indices -1..9 and extremes, "
           "0..12 cue/loop entries, labels 0..300 bytes incl. NUL and invalid UTF-8, waveform with sample rate/count absent or 0, ids that "
@@ -336,11 +338,16 @@ def sweep(profile, variant, runs, seed, collector, workers=None):
     """Run `runs` plans of `profile` across worker processes; feed collector."""
     workers = workers or (8 if variant == "san" else NCPU)
     workers = max(1, min(workers, runs))
+    collector.stride[(profile, variant)] = workers
     lock = threading.Lock()
+    # every worker death is a violation already; a defect that kills (or hangs, 60 s each) most runs would otherwise
+    # keep the check busy for an hour to say the same thing: after this many deaths the rest of the job is abandoned
+    deaths = [0]
+    max_deaths = int(os.environ.get("VERIF_MAX_WORKER_DEATHS", "16"))
 
     def work(w):
         nxt = w
-        while nxt < runs:
+        while nxt < runs and deaths[0] < max_deaths:
             count = (runs - nxt + workers - 1) // workers
             p = subprocess.Popen([V.binary(variant), "sweep", "--profile", profile, "--seed", str(seed),
                                   "--start", str(nxt), "--count", str(count), "--stride", str(workers)],
@@ -375,6 +382,9 @@ def sweep(profile, variant, runs, seed, collector, workers=None):
             with lock:
                 collector.add(profile, variant, res)
                 collector.worker_restarts += 1
+                deaths[0] += 1
+                if deaths[0] == max_deaths:
+                    collector.cut_short.append(f"{profile}/{variant}: abandoned after {max_deaths} worker deaths")
             nxt = cur + workers
 
     ts = [threading.Thread(target=work, args=(w,)) for w in range(workers)]
@@ -401,6 +411,8 @@ class Collector:
         self.other = {}     # property -> count
         self.other_keys = {}
         self.worker_restarts = 0
+        self.cut_short = []
+        self.stride = {}
         self.errors = []
         self.per_profile = {}
         self.sim_stmts = 0
@@ -588,7 +600,65 @@ def fresh_replay(variant, path):
     return [k for (_p, k, _d) in viol_keys(res, profile)], res
 
 
-def process_violation(pid, key, occ, seed):
+def history_violation(pid, key, occ, seed, stride):
+    """The key did not re-fire from the plan alone: it may depend on what the same worker PROCESS executed before
+    (state the library keeps outside its handles, e.g. a function-local static).  Rebuild that history - the plans
+    the worker ran before this one - find a short suffix of it that reproduces the key in a fresh process, twice with
+    equal digests, and write it as the replay.  Returns (status, path) or None if no history reproduces it."""
+    profile, variant, run, detail, plan = occ
+    if plan is None:
+        plan = plan_for(profile, variant, seed, run)
+    import hashlib
+    os.makedirs(REPLAYS, exist_ok=True)
+
+    def attempt(history):
+        doc = {"property": pid, "class_key": key, "variant": variant, "profile": profile, "verif_seed": seed, "run": run,
+               "detail": detail, "history": history, "plan": plan,
+               "note": "replayed as a history: the violation depends on what the same process executed before"}
+        h = hashlib.sha1(json.dumps(doc["history"] + [plan], sort_keys=True).encode()).hexdigest()[:10]
+        path = os.path.join(REPLAYS, f"{pid}-{seed}-{h}.json")
+        json.dump(doc, open(path, "w"), indent=1)
+        k1, r1 = fresh_replay(variant, path)
+        if not any(same_class(key, k) for k in k1):
+            os.remove(path)
+            return None
+        k2, r2 = fresh_replay(variant, path)
+        if not any(same_class(key, k) for k in k2) or r1.get("gatehash") != r2.get("gatehash"):
+            os.remove(path)
+            return None
+        doc["expect_gatehash"] = r1.get("gatehash")
+        json.dump(doc, open(path, "w"), indent=1)
+        return path
+
+    prior = [r for r in range(run - stride, -1, -stride)][:64]   # most recent first
+    k = 1
+    found = None
+    while prior and k <= len(prior) * 2:
+        hist = [plan_for(profile, variant, seed, r) for r in reversed(prior[:min(k, len(prior))])]
+        path = attempt(hist)
+        if path:
+            found = (hist, path)
+            break
+        if k >= len(prior):
+            break
+        k *= 2
+    if not found:
+        return None
+    hist, path = found
+    # greedy: drop earlier plans one at a time while the key still fires
+    i = 0
+    while i < len(hist) and len(hist) > 1:
+        cand = hist[:i] + hist[i + 1:]
+        p2 = attempt(cand)
+        if p2:
+            os.remove(path)
+            hist, path = cand, p2
+        else:
+            i += 1
+    return "violation", path
+
+
+def process_violation(pid, key, occ, seed, stride=None):
     """Gate, minimise, write replay, confirm.  Returns (status, path)."""
     profile, variant, run, detail, plan = occ
     if plan is None:
@@ -603,6 +673,10 @@ def process_violation(pid, key, occ, seed):
         ok1, r1 = reproduces(serve, plan, key, profile)
         ok2, r2 = reproduces(serve, plan, key, profile)
         if not (ok1 and ok2):
+            if stride and not is_crash_key(key):
+                hv = history_violation(pid, key, (profile, variant, run, detail, plan), seed, stride)
+                if hv:
+                    return hv
             return "nondeterministic", f"key {key} did not re-fire on re-execution (run {run} of {profile}/{variant})"
         if not r1.get("crash") and r1.get("gatehash") != r2.get("gatehash"):
             return "nondeterministic", f"gate digests differ on re-execution (run {run} of {profile}/{variant})"
@@ -623,6 +697,23 @@ def process_violation(pid, key, occ, seed):
         doc["crash"] = {"exitcode": res.get("exitcode"), "stderr_tail": res.get("stderr", "")[-1500:]}
     json.dump(doc, open(path, "w"), indent=1)
     keys, fres = fresh_replay(variant, path)
+    if not any(same_class(key, k) for k in keys) and not is_crash_key(key):
+        # the minimised plan may lean on state an earlier candidate left in the serving process (library state that
+        # outlives its handles): fall back to the unminimised plan, then to the worker's history
+        doc.update({"plan": plan, "minimised_steps": len(plan["steps"]), "note": "not minimised: shrinking candidates depended on process state"})
+        json.dump(doc, open(path, "w"), indent=1)
+        keys, fres = fresh_replay(variant, path)
+        if any(same_class(key, k) for k in keys):
+            doc["expect_gatehash"] = fres.get("gatehash")
+            json.dump(doc, open(path, "w"), indent=1)
+            k2, f2 = fresh_replay(variant, path)
+            if any(same_class(key, k) for k in k2) and f2.get("gatehash") == fres.get("gatehash"):
+                return "violation", path
+        elif stride:
+            os.remove(path)
+            hv = history_violation(pid, key, (profile, variant, run, detail, plan), seed, stride)
+            if hv:
+                return hv
     if not any(same_class(key, k) for k in keys):
         return "nondeterministic", f"fresh-process replay of {path} did not reproduce {key}"
     if not fres.get("crash") and fres.get("gatehash") != doc["expect_gatehash"]:
@@ -698,6 +789,7 @@ def write_evidence(pid, tier, seed, col, wall, violations, known_hits, samples, 
         "per_profile": col.per_profile,
         "runs_truncated": col.truncated,
         "worker_restarts": col.worker_restarts,
+        "jobs_cut_short": col.cut_short,
         "other_property_hits": col.other,
         "other_property_classes": col.other_keys,
         "known_findings_hit": known_hits,
@@ -760,7 +852,7 @@ def cmd_check(pid, tier):
         if any(same_class(key, k) for k in done_keys):
             continue
         done_keys.append(key)
-        st, info = process_violation(pid, key, new[key][0], seed)
+        st, info = process_violation(pid, key, new[key][0], seed, col.stride.get((new[key][0][0], new[key][0][1])))
         if st == "violation":
             nviol += 1
             log(f"  class {key}: {len(new[key])} runs; first: {new[key][0][3][:300]}")
@@ -806,6 +898,8 @@ def cmd_determinism(profiles, n, seed):
                 def __init__(self):
                     self.h = {}
                     self.worker_restarts = 0
+                    self.cut_short = []
+                    self.stride = {}
                     self.errors = []
 
                 def add(self, p, v, res):
